@@ -18,20 +18,22 @@ import (
 )
 
 var shimTargets = map[string]string{
-	"os.OpenFile":      "vfsOpenFile",
-	"os.Remove":        "vfsRemove",
-	"os.RemoveAll":     "vfsRemoveAll",
-	"os.MkdirAll":      "vfsMkdirAll",
-	"os.Rename":        "vfsRename",
-	"os.WriteFile":     "vfsWriteFile",
-	"ioutil.WriteFile": "vfsWriteFile",
-	"io.Copy":          "vfsCopy",
+	"os.OpenFile":         "vfsOpenFile",
+	"os.Remove":           "vfsRemove",
+	"os.RemoveAll":        "vfsRemoveAll",
+	"os.MkdirAll":         "vfsMkdirAll",
+	"os.Rename":           "vfsRename",
+	"os.WriteFile":        "vfsWriteFile",
+	"ioutil.WriteFile":    "vfsWriteFile",
+	"io.Copy":             "vfsCopy",
+	"gzip.NewWriterLevel": "vfsGzipWriterLevel",
 }
 
 var shimKeepAlive = map[string]string{
-	"os":        "var _ = os.Getpid",
-	"io/ioutil": "var _ = ioutil.Discard",
-	"io":        "var _ io.Reader",
+	"os":            "var _ = os.Getpid",
+	"io/ioutil":     "var _ = ioutil.Discard",
+	"io":            "var _ io.Reader",
+	"compress/gzip": "var _ = gzip.BestSpeed",
 }
 
 // shimOverlay rewrites every non-test source file of repoDir into dir
